@@ -30,6 +30,9 @@ def call(eng, st, f, args, kwargs):
         if isinstance(x, SStr):
             raise EngineUnsupported("len of symbolic str")
         return len(x)
+    if f is bool:
+        t = ops.truth(st, args[0]) if args else False
+        return t if isinstance(t, bool) else norm(SBool(t))
     if f is range:
         if all(isinstance(a, int) for a in args):
             return range(*args)
@@ -251,6 +254,15 @@ def method(eng, st, recv, name, args, kwargs):
             return SInt(popcount_slice(st, v))
         bits = to_bits(st, v)
         return norm(SInt(z3.Sum([z3.If(b, 1, 0) if not isinstance(b, bool) else z3.IntVal(int(b)) for b in bits]) if bits else z3.IntVal(0)))
+    if isinstance(recv, SBytes) and name in ("startswith", "endswith") and len(args) == 1 and isinstance(args[0], bytes):
+        pre = args[0]
+        n = bytes_len(recv)
+        if name == "startswith":
+            part = bytes_slice(st, recv, 0, len(pre))
+        else:
+            part = bytes_slice(st, recv, -len(pre), None) if pre else b""
+        eq = ops.bytes_eq(st, part, pre) if len(pre) else True
+        return norm(SBool(bool_term(zand(n >= len(pre), eq)))) if not isinstance(eq, bool) or eq else False
     if isinstance(recv, (bytes,)) and all(not isinstance(a, Sym) for a in args):
         return getattr(recv, name)(*args)
     raise EngineUnsupported(f"method {name} on {recv!r}")
